@@ -275,7 +275,50 @@ pub fn plant(r: &mut Rng, env: &Env) -> (String, &'static str) {
     let qubits = env.qubits();
     let q0 = qubits[0].clone();
     let (qn, qs) = env.qregs[0].clone();
-    match r.below(20) {
+    match r.below(28) {
+        20 => {
+            // control inside a whole-register target (multi-bit target)
+            let g = *r.pick(&["cx", "ch", "cz", "cy", "ccx", "cs"][..]);
+            let extra = if g == "ccx" && qubits.len() >= 2 { format!("{},", qubits[qubits.len() - 1]) } else if g == "ccx" { format!("{q0},") } else { String::new() };
+            (format!("{g} {extra}{}[{}],{qn};", qn, r.below(qs)), "InvalidControlMask")
+        }
+        21 => {
+            if qubits.len() >= 2 {
+                (format!("cswap {},{},{};", qubits[0], qubits[0], qubits[1]), "InvalidControlMask")
+            } else {
+                (format!("crz(0.3) {q0},{q0};"), "InvalidControlMask")
+            }
+        }
+        22 => {
+            if let Some((gn, gp, gq)) = env.gates.first() {
+                // wrong number of parameters for a user-defined gate
+                let ps: Vec<String> = (0..gp + 1).map(|i| format!("0.{}", i + 1)).collect();
+                if qubits.len() >= *gq {
+                    return (format!("{gn}({}) {};", ps.join(","), qubits[..*gq].join(",")), "WrongArgNumber");
+                }
+            }
+            (format!("u3(1,2) {q0};"), "WrongArgNumber")
+        }
+        23 => {
+            if let Some((gn, gp, gq)) = env.gates.first() {
+                let ps: Vec<String> = (0..*gp).map(|i| format!("0.{}", i + 1)).collect();
+                let pstr = if *gp == 0 { String::new() } else { format!("({})", ps.join(",")) };
+                if qubits.len() >= gq + 1 {
+                    return (format!("{gn}{pstr} {};", qubits[..gq + 1].join(",")), "WrongRegNumber");
+                }
+            }
+            (format!("h;").replace("h;", &format!("swap {q0};")), "WrongRegNumber")
+        }
+        24 => ("gate selfrec a { selfrec a; }\nselfrec ".to_string() + &q0 + ";", "MacroError"),
+        25 => ("gate ra a { rb a; }\ngate rb a { ra a; }\nra ".to_string() + &q0 + ";", "MacroError"),
+        26 => (format!("reset {qn}[{}];", qs + 1), "IdxOutOfRange"),
+        27 => {
+            if let Some((cn, cs)) = env.cregs.first() {
+                (format!("measure {q0} -> {cn}[{}];", cs + r.below(2)), "IdxOutOfRange")
+            } else {
+                (format!("measure {q0} -> nosuchc[0];"), "NoCReg")
+            }
+        }
         0 => ("h nosuch[0];".into(), "NoQReg"),
         1 => ("reset nosuch;".into(), "NoQReg"),
         2 => (format!("measure {q0} -> nosuchc[0];"), "NoCReg"),
